@@ -7,6 +7,11 @@ from . import sym
 from .sym import explore, exp_axioms, log_axioms
 
 
+def zpre(fmls):
+    """normalise a precondition list (python bools allowed) to z3 formulas"""
+    return [f if isinstance(f, z3.ExprRef) else z3.BoolVal(bool(f)) for f in fmls]
+
+
 def _dedupe(fmls):
     seen, out = set(), []
     for f in fmls:
@@ -19,7 +24,7 @@ def _dedupe(fmls):
 
 def check_contract(T, label, build, pre, post, replay=None, strength=None, extra_axioms=None,
                    exc_ok=None, safety=True, max_paths=20000, timeout_ms=None, safety_label='safe',
-                   path_filter=None):
+                   path_filter=None, shard=None):
     """
     build()        -> out ; builds symbolic inputs itself (or closes over them) and calls REAL code
     pre            -> list of z3 formulas (the `requires`)
@@ -35,6 +40,8 @@ def check_contract(T, label, build, pre, post, replay=None, strength=None, extra
     seen_safety = set()
     for k, p in enumerate(paths):
         if path_filter is not None and not path_filter(p):
+            continue
+        if shard is not None and k % shard[1] != shard[0]:
             continue
         ax = exp_axioms(p.exp_terms) + log_axioms(p.log_terms)
         if extra_axioms:
@@ -64,12 +71,18 @@ def check_contract(T, label, build, pre, post, replay=None, strength=None, extra
                                 strength=strength, timeout_ms=timeout_ms)
                 if st == 'failed':
                     T.results[-1]['replay'] = _mk_replay(replay, m)
-        for case, extra, goal in post(p.out, p):
-            st, m = T.prove(f'{label}/{case}@p{k}', base + list(extra), goal, strength=strength,
+        for item in post(p.out, p):
+            case, extra, goal = item[:3]
+            opts = item[3] if len(item) > 3 else {}
+            # a case may name the subset of the preconditions it needs (fewer irrelevant variables)
+            hy = (list(opts['pre']) + p.pc + p.defs + ax) if 'pre' in opts else base
+            st, m = T.prove(f'{label}/{case}@p{k}', hy + list(extra), goal, strength=strength,
                             timeout_ms=timeout_ms)
             if st == 'failed':
                 T.results[-1]['replay'] = _mk_replay(replay, m)
-    if n_feasible == 0:
+    if shard is not None and shard[0] != 0:
+        return n_feasible
+    if n_feasible == 0 and shard is None:
         T.record(f'{label}/cover:paths', 'vacuous', 'cover', note='no feasible path')
     else:
         T.record(f'{label}/cover:paths', 'covered', 'cover', note=f'{n_feasible} paths')
